@@ -346,49 +346,51 @@ func Supervise(e Engine, opt *Options) int {
 				if end > total {
 					end = total
 				}
-				for start < end {
+				// worklist of run ranges; a worker death splits the range around
+				// the run that was in flight (recorded, confirmed later)
+				type rng struct{ a, b int64 }
+				work := []rng{{start, end}}
+				for deaths := 0; len(work) > 0; {
+					r := work[len(work)-1]
+					work = work[:len(work)-1]
+					if r.a >= r.b {
+						continue
+					}
 					if p == nil {
 						if p, err = startProc(opt); err != nil {
 							setTrouble(err)
 							return
 						}
 					}
-					resp, err := p.call(&Request{Kind: "batch", Tier: opt.Tier, BatchSeed: opt.Seed, Start: start, End: end}, watchdog)
+					resp, err := p.call(&Request{Kind: "batch", Tier: opt.Tier, BatchSeed: opt.Seed, Start: r.a, End: r.b}, watchdog)
 					if err == nil {
 						m.add(resp)
-						break
-					}
-					if err == errWatchdog {
-						idx, _ := p.inflight.read()
-						p.reap()
-						p = nil
-						setTrouble(fmt.Errorf("%v (run %d in flight)", err, idx))
-						return
+						continue
 					}
 					idx, payload := p.inflight.read()
 					code := p.reap()
 					stderr := p.stderr.String()
 					p = nil
-					if idx < start || idx >= end {
-						setTrouble(fmt.Errorf("worker died outside a run (inflight=%d, batch %d..%d, exit %d): %s", idx, start, end, code, tail(stderr, 2000)))
+					if err == errWatchdog {
+						setTrouble(fmt.Errorf("%v (run %d in flight)", err, idx))
 						return
 					}
-					m.deaths = append(m.deaths, Death{idx, payload, stderr, code})
-					if idx > start {
-						if p, err = startProc(opt); err != nil {
-							setTrouble(err)
-							return
-						}
-						resp, err := p.call(&Request{Kind: "batch", Tier: opt.Tier, BatchSeed: opt.Seed, Start: start, End: idx}, watchdog)
-						if err != nil {
-							setTrouble(fmt.Errorf("worker died again re-running %d..%d which it had survived: %v: %s", start, idx, err, tail(p.stderr.String(), 2000)))
-							p.reap()
-							p = nil
-							return
-						}
-						m.add(resp)
+					if idx < r.a || idx >= r.b {
+						setTrouble(fmt.Errorf("worker died outside a run (inflight=%d, batch %d..%d, exit %d): %s", idx, r.a, r.b, code, tail(stderr, 2000)))
+						return
 					}
-					start = idx + 1
+					deaths++
+					m.deaths = append(m.deaths, Death{idx, payload, stderr, code})
+					if deaths > 64 {
+						// plenty of evidence already; do not grind through the rest of the chunk
+						for _, w := range work {
+							m.stats["runs_skipped_after_many_worker_deaths"] += w.b - w.a
+						}
+						m.stats["runs_skipped_after_many_worker_deaths"] += r.b - r.a - 1
+						work = nil
+						break
+					}
+					work = append(work, rng{idx + 1, r.b}, rng{r.a, idx})
 				}
 			}
 		}(w)
